@@ -172,7 +172,7 @@ Definition run_ok (fl : flavour) (p : block IL) (flat : list (finstr IL)) (run :
   match run with
   | (t, r, before, after) =>
       (* nothing to compare (and an expensive model run) when AstVm gave up *)
-      match before with ILimit => true | _ => agree (fun s => s) (run_struct IL FUEL Lax p (st0 t r)) before end
+      match before with ILimit => true | _ => agree (fun s => s) (run_struct IL FUEL (Lax gen_astvm_resets_time) p (st0 t r)) before end
       && match after with ILimit => true | _ => agree fst (run_flat IL FUEL flat (st0 t r)) after end
   end.
 
@@ -198,7 +198,7 @@ Definition diagnose (c : c06case) : N :=
       if negb (wf_prog IL p) then 1%N
       else if negb (list_eqb finstr_eqb (canon (desugar IL fl p)) (canon flat)) then 2%N
       else if negb (forallb (fun run => match run with (t, r, before, _) =>
-                     match before with ILimit => true | _ => agree (fun s => s) (run_struct IL FUEL Lax p (st0 t r)) before end end) runs) then 3%N
+                     match before with ILimit => true | _ => agree (fun s => s) (run_struct IL FUEL (Lax gen_astvm_resets_time) p (st0 t r)) before end end) runs) then 3%N
       else if negb (forallb (fun run => match run with (t, r, _, after) =>
                      match after with ILimit => true | _ => agree fst (run_flat IL FUEL flat (st0 t r)) after end end) runs) then 4%N
       else 0%N
